@@ -28,12 +28,12 @@ ASSUMPTIONS = [
 
 
 def bounds(tier):
-    return {"n_epochs": [1, 3 if tier == "quick" else 4], "n_bins": [1, 4 if tier == "quick" else 5], "n_samples": [1, 3]}
+    return {"n_epochs": [1, 3 if tier == "quick" else 5], "n_bins": [1, 4 if tier == "quick" else 5], "n_samples": [1, 3]}
 
 
 def shapes(tier):
     out = []
-    nmax = 3 if tier == "quick" else 4
+    nmax = 3 if tier == "quick" else 5
     # the period is a concrete rational per shape for the mod-1 statistics (mixed integer/real LINEAR arithmetic is
     # decided in milliseconds; with a symbolic period the k*P products make the queries non-linear and z3 answers unknown).
     Ps = ["1", "5/2"] if tier == "quick" else ["1", "5/2", "1/3", "7"]
@@ -51,7 +51,7 @@ def shapes(tier):
                 # definition (proved above) plus the symmetry of the definition, which is not re-proved here
                 out.append({"fn": "reversal", "nt": nt, "P": P})
             for nb in ([1, 2, 4] if tier == "quick" else [1, 2, 3, 5]):
-                if nt * nb <= 12:
+                if nt * nb <= (12 if tier == "quick" else 20):
                     out.append({"fn": "phase_coverage", "nt": nt, "n_bins": nb, "P": P})
     for nt in (1, 2, 3):
         for P in Ps[:2]:
